@@ -332,16 +332,34 @@ def Sys.encodeBlock (s : Sys) (d : Dir) : Sys :=
   | .c2s => { s1 with flushC := s1.flushC ++ [r.2] }
   | .s2c => { s1 with flushS := s1.flushS ++ [r.2] }
 
-/-- The per-setting loop of the SETTINGS case of `processFrame` (`ForeachSetting`: every value in
-the order it appears, so the last value of an identifier is the one in force afterwards). -/
-def applySettings (s : Sys) (peer : Dir) (order : List Nat) : List (Nat × Nat) → Sys
+/-- Last value a SETTINGS frame carries for an identifier (`none`: it does not occur). -/
+def lastOf (id : Nat) : List (Nat × Nat) → Option Nat
+  | [] => none
+  | (i, v) :: rest =>
+    match lastOf id rest with
+    | some w => some w
+    | none => if i = id then some v else none
+
+/-- The `ForeachSetting` loop of the SETTINGS case of `processFrame`: HEADER_TABLE_SIZE and
+MAX_FRAME_SIZE are handed to the peer relay value by value in the order they appear; the
+INITIAL_WINDOW_SIZE values are only remembered (the last one wins). -/
+def settingsLoop (s : Sys) (peer : Dir) : List (Nat × Nat) → Sys
   | [] => s
   | (id, v) :: rest =>
-    let s' := if id = 4 then s.on peer (.initWin v order)
-              else if id = 5 then s.on peer (.maxFrame v)
+    let s' := if id = 5 then s.on peer (.maxFrame v)
               else if id = 1 then s.setHp peer ((s.hp peer).updateTableSize v)
               else s
-    applySettings s' peer order rest
+    settingsLoop s' peer rest
+
+/-- The SETTINGS case of `processFrame` up to the forwarding write: the loop, then
+`updateInitialWindowSize` once, with the last INITIAL_WINDOW_SIZE of the frame, if there is one
+(RFC 7540 6.5.3: no other processing between the values of one frame; `order` = map iteration
+order of the single pass this triggers). -/
+def applySettings (s : Sys) (peer : Dir) (order : List Nat) (kvs : List (Nat × Nat)) : Sys :=
+  let s1 := settingsLoop s peer kvs
+  match lastOf 4 kvs with
+  | some v => s1.on peer (.initWin v order)
+  | none => s1
 
 /-- Effect of one call of `processFrame` of direction `d`. `enc`: what the HPACK encoder returns
 for this block; `order`: map iteration order of the pass this call triggers, if any.
